@@ -981,8 +981,9 @@ class Collection(object):
             if was_insert:
                 upserted_id = self._insert(existing_document)
                 num_updated += 1
-            elif existing_document != original_document_snapshot:
-                # Document has been modified in-place.
+            elif _copy_field(existing_document, dict) != original_document_snapshot:
+                # Document has been modified in-place (compared as plain dicts: an OrderedDict,
+                # as an upsert builds, would tell a mere reordering of the keys).
 
                 # Make sure the ID was not change.
                 if ('_id' in original_document_snapshot) != ('_id' in existing_document) or \
